@@ -99,6 +99,10 @@ def cases(tier, seed):
     profiles = ['db', 'asym', 'sizes', 'terrapin', 'gss', 'unknown', 'big', 'weak', 'db', 'asym-weak', 'lone-change']
     for i in range(4 if tier == 'quick' else 40):
         cs.append({'kind': 'multi', 'seed': rng.randrange(1 << 30), 'threads': [1, 2][i % 2], 'render': 'json'})
+    # OpenSSH servers whose group exchanges are all measured at exactly 2048 bits (the case in which one of them is excused as outside the operator's control)
+    for i, w in enumerate(['6.6', '7.4', '8.9', '9.9'] if tier == 'quick' else ['5.3', '6.6', '7.0', '7.4', '8.0', '8.9', '9.3', '9.9', '10.0']):
+        for both in (True, False):
+            cs.append({'seed': rng.randrange(1 << 30), 'product': 'OpenSSH', 'version': w, 'software': 'OpenSSH_%s' % w, 'profile': 'gex2048-both' if both else 'gex2048-one', 'render': 'json' if (i + both) % 2 else 'text'})
     for i in range(n):
         if i % 6 == 5:
             prod, w, sw = others[(i // 6) % len(others)]
@@ -148,6 +152,9 @@ def build(c):
         bits = rng.choice([1024, 2048, 3072, 4096])
         hk = gen.hostkeys_for(k['key'], {t: {'type': 'rsa', 'bits': bits} for t in ('ssh-rsa', 'rsa-sha2-256', 'rsa-sha2-512')})
         gex = {'sizes': [rng.choice([1024, 2048, 3072, 4096])], 'style': rng.choice(['strict', 'openssh'])}
+    if prof.startswith('gex2048'):
+        k['kex'] = ['curve25519-sha256', 'diffie-hellman-group-exchange-sha256'] + (['diffie-hellman-group-exchange-sha1'] if prof.endswith('both') else []) + [x for x in k['kex'] if 'group-exchange' not in x and x != 'curve25519-sha256'][:2]
+        gex = {'sizes': rng.choice([[2048], [2048, 8192]]), 'style': rng.choice(['strict', 'openssh'])}
     if prof == 'lone-change':
         # a host-key list with nothing to add and nothing to remove, whose RSA key is 2048 bits: the only recommendation of the category is a change
         k['key'] = ['ssh-ed25519', 'rsa-sha2-256'] + ([] if c['product'] == 'Dropbear SSH' else ['rsa-sha2-512'])
